@@ -347,18 +347,16 @@ func (m *{{ .Name }}) Delete(k {{ .KeyType }}) {
 }
 
 func (m *{{ .Name }}) delete(k {{ .KeyType }}) {
-var kk {{ .KeyType }}
-	i := -1
-
-	for i, kk = range m.order {
-		if kk == k {
-			break
-		}
+	if !m.has(k) {
+		return
 	}
 
 	delete(m.data, k)
-	if i != -1 {
-		m.order = append(m.order[:i], m.order[i+1:]...)
+	for i, kk := range m.order {
+		if kk == k {
+			m.order = append(m.order[:i], m.order[i+1:]...)
+			break
+		}
 	}
 }
 
@@ -367,7 +365,9 @@ func (m *{{ .Name }}) Filter(fn filter{{ .CapitalizedName }}Func) {
 	m.mx.Lock()
 	defer m.mx.Unlock()
 
-	for _, k := range m.order {
+	// Iterate over a copy: delete shifts the order slice in place.
+	order := append([]{{ .KeyType }}(nil), m.order...)
+	for _, k := range order {
 		if !fn(k, m.data[k]) {
 			m.delete(k)
 		}
